@@ -296,6 +296,12 @@ def c11_tree(rng, depth, doc=None):
     if depth <= 0 or rng.random() < 0.4:
         return c11_leaf(rng, doc)
     op = rng.choice(["and", "or", "xor"])
+    if rng.random() < 0.05:
+        # both operands take multi-key literal mappings (whose keys may come back from JSON in another order)
+        mk = lambda fn, m: ("leaf", {"datum": "value", "pre": "none", "fn": fn, "actuals": [m], "akw": {}})   # noqa: E731
+        maps = [{"z": 1, "a": [1]}, {"name": "run", "count": 3}, {"b": None, "a": "x", "c": 2.5}, {"k": {"z": 1, "y": 2}, "a": 0}]
+        m1, m2 = rng.sample(maps, 2)
+        return (op, mk(rng.choice(["equal_to", "not_equal_to", "in_"]), m1), mk(rng.choice(["equal_to", "not_equal_to"]), m2))
     if rng.random() < 0.06:
         sub = c11_tree(rng, depth - 1, doc)
         return (rng.choice(["and", "or", "xor", "xor"]), sub, sub)     # ONE object as both operands (c ^ c)
